@@ -115,13 +115,14 @@ class Builder:
         self.case, self.objs = case, objs
         self.vars, self.flats, self.concats = {}, {}, {}
         self.memo = {} if case.get('share_terms') else None        # one expression OBJECT per distinct term (shared by the pool)
+        self.used = set()
         for k, d in case['doms']:
             self.vars[k] = let(P, domain=self.domain_of(k, [objs[i] for i in d]), name=f'v{k}')
 
     def domain_of(self, k, items):
         return items
 
-    def term(self, t):
+    def term(self, t, fresh=False):
         k = t[0]
         if k == 'lit':
             return pyval(t[1], self.objs)
@@ -129,7 +130,10 @@ class Builder:
             return self.vars[t[1]]
         if k == 'map':
             key = json.dumps(t)
-            if self.memo is not None and key in self.memo:
+            # an expression OBJECT is shared between the queries of a pool, never between two positions of ONE query (a node
+            # holds its evaluation state: two live evaluations of the same node inside one query are outside the model)
+            if self.memo is not None and key in self.memo and not fresh and key not in self.used:
+                self.used.add(key)
                 return self.memo[key]
             base = self.term(t[2])
             if t[1][0] == 'i':
@@ -137,8 +141,9 @@ class Builder:
             else:
                 name = FIELDS[t[1][1]]
                 r = getattr(base, name[:-2])() if name.endswith('()') else getattr(base, name)
-            if self.memo is not None:
+            if self.memo is not None and not fresh and key not in self.memo:
                 self.memo[key] = r
+                self.used.add(key)
             return r
         if k == 'flat':
             if t[1] not in self.flats:
@@ -150,7 +155,7 @@ class Builder:
             return self.concats[t[1]]
         raise ValueError(t)
 
-    def cond(self, c):
+    def cond(self, c, negated=False):
         k = c[0]
         if k == 'cmp':
             return PYOPS[c[1]](self.term(c[2]), self.term(c[3]))
@@ -159,7 +164,9 @@ class Builder:
         if k == 'contains':
             return contains(self.term(c[1]), self.term(c[2]))
         if k == 'truth':
-            return self.term(c[1])
+            # not_ inverts a condition node IN PLACE: an expression that is negated is never the object another position uses
+            # (DESIGN.md 3.2: shared NEGATED condition nodes are outside the model); un-negated ones are shared like any term
+            return self.term(c[1], fresh=negated)
         if k in ('and', 'or'):
             style = c[3] if len(c) > 3 else 'fn'
             # a left-nested chain of the same connective may be written as one n-ary call
@@ -170,25 +177,26 @@ class Builder:
                     node = node[1]
                 parts.append(node)
                 parts.reverse()
-                built = [self.cond(p) for p in parts]
+                built = [self.cond(p, negated) for p in parts]
                 return and_(*built) if k == 'and' else or_(*built)
-            l, r = self.cond(c[1]), self.cond(c[2])
+            l, r = self.cond(c[1], negated), self.cond(c[2], negated)
             if style == 'op':
                 return (l & r) if k == 'and' else (l | r)
             return and_(l, r) if k == 'and' else or_(l, r)
         if k == 'not':
-            x = self.cond(c[1])
+            x = self.cond(c[1], True)
             return ~x if (len(c) > 2 and c[2] == 'op') else not_(x)
         if k == 'forall':
-            return for_all(self.term(c[3]) if len(c) > 3 else self.vars[c[1]], self.cond(c[2]))
+            return for_all(self.term(c[3]) if len(c) > 3 else self.vars[c[1]], self.cond(c[2], negated))
         if k == 'sub':
             sel = [self.term(t) for t in c[1]]
-            body = self.cond(c[2])
+            body = self.cond(c[2], negated)
             return an(entity(sel[0], body)) if len(sel) == 1 else an(set_of(sel, body))
         raise ValueError(c)
 
     def query(self):
         case = self.case
+        self.used = set()
         sel = [self.term(t) for t in case['sel']]
         conds = []
         if case['cond'] is not None:
